@@ -678,4 +678,18 @@ pub proof fn lemma_sip_finalize(s: Seq<u64>)
     lemma_siprounds_4(s.update(2, s[2] ^ 0xffu64));
 }
 
+/// vstd's specification of `u64::wrapping_add` is addition modulo 2^64 (lets exec code keep `add64` hidden)
+pub broadcast proof fn lemma_wrapping_add_u64(a: u64, b: u64)
+    ensures
+        #[trigger] vstd::wrapping::u64_specs::wrapping_add(a, b) == add64(a, b),
+{
+}
+
+/// vstd's specification of `u32::wrapping_add` is addition modulo 2^32
+pub broadcast proof fn lemma_wrapping_add_u32(a: u32, b: u32)
+    ensures
+        #[trigger] vstd::wrapping::u32_specs::wrapping_add(a, b) == add32(a, b),
+{
+}
+
 } // verus!
